@@ -608,6 +608,19 @@ def directed_chistory(rng):
     elif doomed == "oversize":
         seq.insert(pos, ("put", 0, "K" * 256, V()))
     ops += seq
+    if doomed != "none" and bs > 40 and rng.random() < 0.5:
+        # the failure surfaces only when the session ends: the puts queued behind the doomed one stay buffered.  They are
+        # accepted puts: reading sessions that ask for them (get / items / values / contains) must not lose them, and the
+        # next writing session stores them
+        ops.append(("endw", 0))
+        for _ in range(rng.randint(1, 2)):
+            ops.append(("beginr", 0))
+            for k in rng.sample(pre + batch, len(pre + batch)):
+                ops.append(rng.choice([("get", 0, k), ("contains", 0, k, rng.randrange(2)), ("get", 0, k)]))
+            ops.append(rng.choice([("items", 0), ("values", 0), ("keys", 0), ("len", 0, rng.randrange(3))]))
+            ops.append(("endr", 0))
+        ops += [("beginw", 0), ("keys", 0), ("endw", 0), ("beginr", 0), ("keys", 0)] + [("get", 0, k) for k in pre + batch] + [("endr", 0)]
+        return ops, cfg
     ops.append(rng.choice([("flush", 0), ("get", 0, batch[-1]), ("keys", 0)]))
     ops.append(("keys", 0))
     for k in rng.sample(pre + batch, len(pre + batch)):
@@ -673,6 +686,7 @@ def cdrive(path, ops, cfg, fault=None):
         k, i = o[0], o[1]
         c = cols[i]
         be = c._backend
+        state_before = be._state
         try:
             if k == "beginw":
                 cm = c.writing(timeout=5); cm.__enter__(); cms[i] = cm; r = "BOk"
@@ -800,7 +814,9 @@ def cdrive(path, ops, cfg, fault=None):
                     pending[j].remove(key)
                 elif key not in qk:
                     pending[j].remove(key)
-                    if fault is None:
+                    # a write attempted outside a writing session -- an explicit flush, or a put that overflows the buffer --
+                    # is misuse (it can only fail), and what it costs is outside the claim
+                    if fault is None and not (j == i and k in ("flush", "put") and state_before != "writing"):
                         viol.append(("C02:collection:accepted-put-lost",
                                      f"put({key[:8]!r}) was accepted inside a writing session (fresh key, legal size) and is now neither in the "
                                      f"file nor in the write buffer (after op {len(cops)}: {cops[-1][:40]}): a successful put vanished"))
